@@ -307,7 +307,10 @@ class MPSConv2d(nn.Conv2d, MPSModule):
         if isinstance(self.w_mps_quantizer, MPSPerLayerQtz):
             w_theta_alpha_array = self.w_mps_quantizer.theta_alpha
         elif isinstance(self.w_mps_quantizer, MPSPerChannelQtz):
-            w_theta_alpha_array = self.w_mps_quantizer.theta_alpha.mean(dim=1)
+            # fraction of the not-pruned channels assigned to each precision: the cost function
+            # receives the effective (i.e., not-pruned) number of output channels
+            w_theta_alpha_array = (self.w_mps_quantizer.theta_alpha.sum(dim=1) /
+                                   (self.out_features_eff + 1e-10))
         else:
             msg = f'Supported mixed-precision types: {list(MPSType)}'
             raise ValueError(msg)
